@@ -87,15 +87,34 @@ def _kernel_elt_ok(elt: ast.AST, xs: List[str], op: str, order: Optional[Tuple[s
 def _compare(ctx) -> None:
     prog = ctx.prog
     # dispatch
+    from ..symx import strip_not
+    from .c05 import _A, _B, _BIN, _CMP, _apply_op, _returns_of
+    from ..symx import show as _show
     for name, want in COMPARE_DISPATCH.items():
         f = prog.method("Vector", name)
         if f is None:
             raise AnalysisError(f"Vector.{name} vanished")
-        rets = [s for s in walk_stmts(f.body) if isinstance(s, ast.Return)]
-        ok = len(rets) == 1 and isinstance(rets[0].value, ast.Call) and attr_chain(rets[0].value.func) == ["self", "_elementwise_compare"] \
-            and len(rets[0].value.args) == 2 and short(rets[0].value.args[0]) == f.params[1] and short(rets[0].value.args[1]) == want
-        ctx.ob("a.dispatch", f, "dispatch", ok, f"{name} -> _elementwise_compare(other, {want})", rets[0] if rets else f.node,
-               message=f"Vector.{name} returns `{short(rets[0].value) if rets else '?'}`, expected self._elementwise_compare(other, {want})")
+        it, rets = _returns_of(prog, f)
+        SELF = ("param", f.params[0])
+        opn = want.split(".")[1]
+        wants = [("cmp", _CMP[opn], _A, _B)] if opn in _CMP else [("bin", _BIN[opn], _A, _B), ("bin", _BIN[opn], _B, _A)]
+        problems = []
+        if not rets or it.falls_through:
+            problems.append("does not return the kernel's result on every path")
+        for e in rets:
+            t = e.term
+            if not (t[0] == "call" and t[1] == ("attr", SELF, "_elementwise_compare") and len(t[2]) == 2 and not t[3]
+                    and t[2][0] == ("param", f.params[1])):
+                problems.append(f"returns `{_show(t, it)[:60]}`, expected self._elementwise_compare({f.params[1]}, {want})")
+                continue
+            got = _apply_op(prog, it, f, t[2][1], (_A, _B))
+            if got is not None and got[0] == "cmp":
+                b, flip = strip_not(got)
+                got = got if not flip else got
+            if got not in wants:
+                problems.append(f"the operator handed to the kernel computes `{_show(got) if got else '?'}`, expected `{_show(wants[0])}`")
+        ctx.ob("a.dispatch", f, "dispatch", not problems, f"{name} -> _elementwise_compare(other, {want})", rets[0].node if rets else f.node,
+               message=f"Vector.{name}: " + "; ".join(problems[:2]))
     # kernels: every Vector(...) result of the two comparison kernels, on the symx event log (closures / helpers in line)
     from ..sites2 import all_sites2, comp_parts, leaves
     from ..symx import NONE as SNONE
@@ -193,29 +212,38 @@ def _kernel_elt_term(s, v, xs, op, second, other_terms, date_kernel: bool) -> Op
 
 # ---------------------------------------------------------------------------------------------
 def _index(ctx) -> None:
+    """v[int] is tuple indexing, v[slice] copies the tuple slice - on the symx returns / copy sites of Vector.__getitem__ (an index
+    helper in line; the key possibly passed through _check_duplicate)."""
+    from ..sites2 import all_sites2, interp_of
+    from ..symx import flatten_conds, show
     prog = ctx.prog
     f = prog.func("vector.Vector.__getitem__")
-    key = f.params[1]
-    # int branch
-    ok = False
-    node = f.node
-    for s in f.body:
-        if isinstance(s, ast.If) and short(s.test) == f"isinstance({key}, int)":
-            node = s
-            ok = len(s.body) >= 1 and isinstance(s.body[-1], ast.Return) and short(s.body[-1].value) == f"self._underlying[{key}]"
-    ctx.ob("b.int-index", f, "int", ok, "v[int] -> self._underlying[key]", node,
-           message=f"the integer branch of Vector.__getitem__ does not return self._underlying[{key}]")
+    it = interp_of(prog, f)
+    SELF, K = ("param", f.params[0]), ("param", f.params[1])
+    keys = (K, ("call", ("attr", SELF, "_check_duplicate"), (K,), ()))
+    und = ("attr", SELF, "_underlying")
+
+    def under(e, cls: str) -> bool:
+        return any(pol and t[0] == "call" and t[1] == ("name", "isinstance") and len(t[2]) == 2 and t[2][0] in keys
+                   and t[2][1] == ("name", cls) for t, pol in flatten_conds(e.conds))
+    rets = [e for e in it.events if e.kind == "return" and e.depth == 0]
+    ints = [e for e in rets if under(e, "int")]
+    ok = bool(ints) and all(e.term[0] == "sub" and e.term[1] == und and e.term[2] in keys for e in ints)
+    ctx.ob("b.int-index", f, "int", ok, "v[int] -> self._underlying[key]", ints[0].node if ints else f.node,
+           message=f"the integer branch of Vector.__getitem__ does not return self._underlying[{f.params[1]}]: "
+                   + "; ".join(show(e.term, it)[:50] for e in ints[:2]))
     # slice branch
     problems = []
-    sl = [s for s in f.body if isinstance(s, ast.If) and short(s.test) == f"isinstance({key}, slice)"]
-    if len(sl) != 1:
+    sl = [e for e in rets if under(e, "slice")]
+    if not sl:
         raise AnalysisError("Vector.__getitem__: slice branch not found")
-    r = sl[0].body[-1]
-    if not (isinstance(r, ast.Return) and isinstance(r.value, ast.Call) and attr_chain(r.value.func) == ["self", "copy"]
-            and r.value.args and short(r.value.args[0]) == f"self._underlying[{key}]"):
-        problems.append(f"the slice branch returns `{short(r.value, 70) if isinstance(r, ast.Return) else short(r)}`, expected "
-                        f"self.copy(self._underlying[{key}], ...)")
-    ctx.ob("b.slice-integrity", f, "slice-branch", not problems, "slice branch delegates to tuple slicing", sl[0],
+    sites = {id(s_.ev): s_ for s_ in all_sites2(prog) if s_.top is f and s_.it is it and s_.kind == "copy"}
+    for e in sl:
+        site = next((s_ for s_ in sites.values() if s_.call == e.term), None)
+        if not (site is not None and site.recv == SELF and site.data is not None and site.data[0] == "sub" and site.data[1] == und
+                and site.data[2] in keys):
+            problems.append(f"the slice branch returns `{show(e.term, it)[:70]}`, expected self.copy(self._underlying[{f.params[1]}], ...)")
+    ctx.ob("b.slice-integrity", f, "slice-branch", not problems, "slice branch delegates to tuple slicing", sl[0].node,
            message="; ".join(problems))
     # R-FALSY in copy (and any function where a None-default parameter carries constructor data)
     g = prog.func("vector.Vector.copy")
